@@ -242,6 +242,12 @@ class FUniverse:
     def _topology(self):
         return FTopology(self.masses, self.names)
 
+    @property
+    def trajectory(self):
+        """Universe.empty(n, trajectory=True): a one-frame MemoryReader -- the time step is a view of the coordinate array, so seeking
+        frame 0 changes nothing (self-tested against MDAnalysis)"""
+        return _OneFrameMemoryTrajectory(self)
+
     def select_atoms(self, sel):
         import re
         m = re.fullmatch(r"\s*(not\s+)?bynum\s+(\d+)\s*:\s*(\d+)\s*", sel)
@@ -253,6 +259,26 @@ class FUniverse:
 
     def __getattr__(self, nm):
         raise Unsupported(f"Universe model: {nm} not modelled")
+
+
+class _OneFrameMemoryTrajectory:
+    def __init__(self, u):
+        self.u = u
+
+    def __len__(self):
+        return 1
+
+    def __getitem__(self, k):
+        if not isinstance(k, (int, np.integer)) or k not in (0, -1):
+            raise IndexError(f"Index {k} exceeds length of trajectory (1).")
+        return self
+
+    @property
+    def frame(self):
+        return 0
+
+    def __getattr__(self, nm):
+        raise Unsupported(f"one-frame memory trajectory model: {nm} not modelled")
 
 
 class FTopology:
@@ -368,6 +394,188 @@ class FMemUniverse(FUniverse):
         return u
 
 
+# ------------------------------------------------------------------------------------------ file-based universes (mda.Universe(path))
+FILE_MASSES = {"C": 12.011, "H": 1.008, "O": 15.999, "N": 14.007}
+
+
+class FFileTimestep:
+    def __init__(self, u):
+        self.u = u
+
+    @property
+    def frame(self):
+        return self.u._cur
+
+    @property
+    def positions(self):
+        return self.u.pos
+
+    def __getattr__(self, nm):
+        raise Unsupported(f"Timestep model: {nm} not modelled")
+
+
+class FFileTrajectory:
+    """reader of a coordinate file.  kind 'multi' (XYZ, PDB, ...): indexing RE-READS the frame from the file and then applies the
+    transformations registered with add_transformations; an edit of the current time step (atoms.translate, positions = ...) lives only
+    until the next read.  kind 'single' (GRO: SingleFrameReader): indexing frame 0 hands back the current time step as it is."""
+
+    def __init__(self, u):
+        self.u = u
+
+    def __len__(self):
+        return len(self.u.file_frames)
+
+    @property
+    def n_frames(self):
+        return len(self.u.file_frames)
+
+    @property
+    def ts(self):
+        return FFileTimestep(self.u)
+
+    def _apply(self):
+        for t in self.u._transformations:
+            if isinstance(t, tuple) and len(t) == 2 and t[0] == "translate":
+                self.u.pos = self.u.pos + np.asarray(_strip(t[1]), dtype=object)
+            else:
+                raise Unsupported("only translate transformations are modelled")
+
+    def __getitem__(self, k):
+        if not isinstance(k, (int, np.integer)):
+            raise Unsupported("trajectory slicing is not modelled")
+        n = len(self.u.file_frames)
+        if not -n <= k < n:
+            raise IndexError(f"Index {k} exceeds length of trajectory ({n}).")
+        k = int(k) % n
+        if self.u.kind == "single":
+            return FFileTimestep(self.u)
+        self.u._cur = k
+        self.u.pos = self.u.file_frames[k].copy().view(SArr)
+        self._apply()
+        return FFileTimestep(self.u)
+
+    def add_transformations(self, *ts):
+        if self.u._transformations:
+            raise ValueError("Can't add transformations again. Please create new Universe object")
+        self.u._transformations = list(ts)
+        self._apply()                      # MDAnalysis applies them to the current time step at once
+
+    def __getattr__(self, nm):
+        raise Unsupported(f"file trajectory model: {nm} not modelled")
+
+
+class FFileUniverse(FUniverse):
+    def __init__(self, file_frames, names, kind="multi", masses=None):
+        fr = np.asarray(_strip(file_frames), dtype=object)
+        if fr.ndim != 3 or fr.shape[2] != 3 or fr.shape[1] != len(names):
+            raise ValueError(f"coordinate frames of shape {fr.shape} for {len(names)} atoms")
+        self.file_frames = fr                      # what is on disk: never modified
+        self.names = list(names)
+        self._mass_table = masses or FILE_MASSES      # guessed from the element; a harness may hand in weights whose float sums are exact
+        self.masses = _arr([self._mass_table[nm[0]] for nm in names])
+        self.dimensions = None
+        self.kind = kind
+        self._transformations = []
+        self._cur = 0
+        self.pos = fr[0].copy().view(SArr)         # the current time step
+
+    @property
+    def trajectory(self):
+        return FFileTrajectory(self)
+
+    def copy(self):
+        """Universe.copy(): a new reader of the same file with the same transformations, at the same frame, holding a COPY of the current
+        time step (edits made so far are kept -- until the copy reads a frame again)"""
+        u = FFileUniverse(self.file_frames, self.names, self.kind, self._mass_table)
+        u._transformations = list(self._transformations)
+        u._cur = self._cur
+        u.pos = self.pos.copy()
+        u.dimensions = self.dimensions
+        return u
+
+
+class MdaFiles:
+    """stand-in for the MDAnalysis module where the package opens coordinate files: Universe(path) on a dict of modelled files"""
+    def __init__(self, files, masses=None):
+        self.files, self.masses = files, masses
+
+    def Universe(self, path, *a, **k):
+        if a or k:
+            raise Unsupported("mda.Universe(path, ...) with more arguments is not modelled")
+        if path not in self.files:
+            raise FileNotFoundError(path)
+        frames, names, kind = self.files[path]
+        return FFileUniverse(frames, names, kind, self.masses)
+
+    def __getattr__(self, nm):
+        raise Unsupported(f"MDAnalysis.{nm} is not modelled here")
+
+
+class TransModel:
+    @staticmethod
+    def translate(v):
+        return ("translate", v)
+
+
+def write_xyz(path, frames, names):
+    with open(path, "w") as f:
+        for k, fr in enumerate(frames):
+            f.write(f"{len(names)}\nframe {k}\n")
+            for nm, r in zip(names, fr):
+                f.write(f"{nm} {float(r[0]):.6f} {float(r[1]):.6f} {float(r[2]):.6f}\n")
+
+
+def write_gro(path, frame, names):
+    with open(path, "w") as f:
+        f.write("model\n%5d\n" % len(names))
+        for i, (nm, r) in enumerate(zip(names, frame)):
+            f.write("%5d%-5s%5s%5d%8.3f%8.3f%8.3f\n" % (1, "MOL", nm, i + 1, float(r[0]) / 10, float(r[1]) / 10, float(r[2]) / 10))
+        f.write("   5.00000   5.00000   5.00000\n")
+
+
+def file_universe_selftest(seed=0):
+    """the file-universe model against real MDAnalysis readers (XYZ with one and two frames, GRO) over the operations the package uses:
+    add_transformations(translate), atoms.translate, copy, indexing the trajectory, positions getter / setter, centre of mass"""
+    import os, tempfile, warnings
+    import MDAnalysis as mda
+    from MDAnalysis import transformations as trans
+    rng = np.random.default_rng(seed + 17)
+    n = 0
+    d = tempfile.mkdtemp(prefix="symx_files_")
+    try:
+        with warnings.catch_warnings():
+            warnings.simplefilter("ignore")
+            for kind, nfr in (("multi", 1), ("multi", 2), ("single", 1)):
+                names = ["C", "H", "O"][: int(rng.integers(1, 4))]
+                frames = np.round(rng.normal(scale=2.0, size=(nfr, len(names), 3)), 1)
+                fn = os.path.join(d, "m.xyz" if kind == "multi" else "m.gro")
+                (write_xyz(fn, frames, names) if kind == "multi" else write_gro(fn, frames[0], names))
+                shift = np.round(rng.normal(size=3), 1)
+                for script in ("T0", "A0", "TC0", "AC0", "A0T", "T1" if nfr > 1 else "T", "A10" if nfr > 1 else "A", "TPC0"):
+                    ru, fu = mda.Universe(fn), FFileUniverse(frames, names, kind)
+                    assert np.allclose(ru.atoms.masses, np.asarray(fu.atoms.masses, dtype=float), atol=1e-3), "guessed masses"
+                    for op in script:
+                        if op == "T":
+                            ru.atoms.translate(shift); fu.atoms.translate(list(shift))
+                        elif op == "A":
+                            ru.trajectory.add_transformations(trans.translate(-ru.atoms.center_of_mass()))
+                            fu.trajectory.add_transformations(TransModel.translate(-fu.atoms.center_of_mass()))
+                        elif op == "C":
+                            ru, fu = ru.copy(), fu.copy()
+                        elif op == "P":
+                            ru.atoms.positions = ru.atoms.positions + 1.0; fu.atoms.positions = fu.atoms.positions + 1.0
+                        elif op in "01":
+                            ru.trajectory[int(op)]; fu.trajectory[int(op)]
+                        assert np.allclose(ru.atoms.positions, np.asarray(fu.atoms.positions, dtype=float), atol=1e-3), (kind, nfr, script, op)
+                        assert np.allclose(ru.atoms.center_of_mass(), np.asarray(fu.atoms.center_of_mass(), dtype=float), atol=1e-3), (kind, nfr, script, op, "com")
+                        n += 1
+    finally:
+        for f_ in os.listdir(d):
+            os.remove(os.path.join(d, f_))
+        os.rmdir(d)
+    return n
+
+
 def FMerge(*ags):
     if not ags:
         raise ValueError("Need at least one AtomGroup for merging")
@@ -450,6 +658,9 @@ def models_selftest(seed=0, rounds=5):
             x = ru2.atoms.positions; x += 1.0
             y = fu2.atoms.positions; y += 1.0
             assert np.allclose(ru2.atoms.positions, np.asarray(fu2.atoms.positions, dtype=float), atol=1e-5); n += 1
+            rc, fc = ru2.copy(), fu2.copy()
+            rc.atoms.translate(t); fc.atoms.translate(t); rc.trajectory[0]; fc.trajectory[0]      # seeking frame 0 of a one-frame memory universe keeps the edit
+            assert np.allclose(rc.atoms.positions, np.asarray(fc.atoms.positions, dtype=float), atol=1e-4); n += 1
             rc, fc = ru2.copy(), fu2.copy()
             rc.atoms.rotate(Rm, point=rc.atoms.center_of_mass()); fc.atoms.rotate(Fm, point=fc.atoms.center_of_mass())
             rc.atoms.translate(t); fc.atoms.translate(t)
